@@ -400,6 +400,18 @@ def code_size_of(v, interp, elem=False):
 # ---------------------------------------------------------------------------------------
 # projecting a structured trace on one parser / composer
 
+def same_vals(x, y):
+    """two composer elements write the same value (or are parser elements, which carry none)"""
+    vx, vy = getattr(x, 'val', None), getattr(y, 'val', None)
+    if vx is None and vy is None:
+        return True
+    try:
+        from .values import show as _show
+        return _show(vx) == _show(vy)
+    except Exception:      # pylint: disable=broad-except
+        return False
+
+
 def project(items, target, make, interp=None):
     out = []
     for it in items:
@@ -420,6 +432,30 @@ def project(items, target, make, interp=None):
                 a = project(it[2], target, make, interp)
                 b = project(it[3], target, make, interp)
                 if a or b:
+                    if a and b and not (sigs(a) == sigs(b) and same_keys(a, b)):
+                        # ``A B C | A C`` (a loop over a list one branch extended): the elements both arms start / end with are written
+                        # on either path - they stand outside the conditional, which keeps what differs
+                        pre = 0
+                        while pre < min(len(a), len(b)) and sigs(a[pre:pre + 1]) == sigs(b[pre:pre + 1]) and same_keys(a[pre:pre + 1], b[pre:pre + 1]) and \
+                                same_vals(a[pre], b[pre]):
+                            pre += 1
+                        suf = 0
+                        while suf < min(len(a), len(b)) - pre and sigs(a[len(a) - 1 - suf:len(a) - suf]) == sigs(b[len(b) - 1 - suf:len(b) - suf]) and \
+                                same_keys(a[len(a) - 1 - suf:len(a) - suf], b[len(b) - 1 - suf:len(b) - suf]) and same_vals(a[len(a) - 1 - suf], b[len(b) - 1 - suf]):
+                            suf += 1
+                        if pre or suf:
+                            out.extend(a[:pre])
+                            ma, mb = a[pre:len(a) - suf], b[pre:len(b) - suf]
+                            tail = a[len(a) - suf:] if suf else []
+                            if ma or mb:
+                                if mb and not ma:
+                                    cond = it[1]
+                                    neg = cond.args[0] if isinstance(cond, Sym) and cond.op == 'not' else Sym('not', cond)
+                                    out.append(El('alt', a=mb, b=[], val=neg, op=it[4]))
+                                else:
+                                    out.append(El('alt', a=ma, b=mb, val=it[1], op=it[4]))
+                            out.extend(tail)
+                            continue
                     if sigs(a) == sigs(b) and same_keys(a, b):
                         out.extend(a)
                     elif b and not a:
